@@ -248,7 +248,7 @@ let with_misses (f : unit -> String.t) : unit =
 
 let chunk_str (c : chunk) : String.t = (if c.checked then "" else "u:") ^ hex_of_bytes c.data
 
-let css_handlers_env = lazy (build_handlers css_acceptors css_handler_defs [])
+let css_handlers_env = lazy css_handlers
 
 let handle_line (line : String.t) : unit =
   match split_ws line with
